@@ -196,6 +196,24 @@ func main() {
 		{name: "uniform scale 2.5", k: 2.5,
 			f3: func(s sdf.SDF3) sdf.SDF3 { return sdf.ScaleUniform3D(s, 2.5) }, m3: func(p v3.Vec) v3.Vec { return p.MulScalar(1 / 2.5) },
 			f2: func(s sdf.SDF2) sdf.SDF2 { return sdf.ScaleUniform2D(s, 2.5) }, m2: func(p v2.Vec) v2.Vec { return p.MulScalar(1 / 2.5) }},
+		{name: "uniform scale 0.001", k: 0.001,
+			f3: func(s sdf.SDF3) sdf.SDF3 { return sdf.ScaleUniform3D(s, 0.001) }, m3: func(p v3.Vec) v3.Vec { return p.MulScalar(1000) },
+			f2: func(s sdf.SDF2) sdf.SDF2 { return sdf.ScaleUniform2D(s, 0.001) }, m2: func(p v2.Vec) v2.Vec { return p.MulScalar(1000) }},
+		{name: "uniform scale 4096", k: 4096,
+			f3: func(s sdf.SDF3) sdf.SDF3 { return sdf.ScaleUniform3D(s, 4096) }, m3: func(p v3.Vec) v3.Vec { return p.MulScalar(1.0 / 4096) },
+			f2: func(s sdf.SDF2) sdf.SDF2 { return sdf.ScaleUniform2D(s, 4096) }, m2: func(p v2.Vec) v2.Vec { return p.MulScalar(1.0 / 4096) }},
+		{name: "uniform scale 0.1, then 5 (directly nested)", k: 0.5,
+			f3: func(s sdf.SDF3) sdf.SDF3 { return sdf.ScaleUniform3D(sdf.ScaleUniform3D(s, 0.1), 5) }, m3: func(p v3.Vec) v3.Vec { return p.MulScalar(2) },
+			f2: func(s sdf.SDF2) sdf.SDF2 { return sdf.ScaleUniform2D(sdf.ScaleUniform2D(s, 0.1), 5) }, m2: func(p v2.Vec) v2.Vec { return p.MulScalar(2) }},
+		{name: "uniform scale 4, then 0.5, then rigid", k: 2,
+			f3: func(s sdf.SDF3) sdf.SDF3 {
+				return sdf.Transform3D(sdf.ScaleUniform3D(sdf.ScaleUniform3D(s, 4), 0.5), rot)
+			},
+			m3: func(p v3.Vec) v3.Vec { return rinv.MulPosition(p).MulScalar(0.5) },
+			f2: func(s sdf.SDF2) sdf.SDF2 {
+				return sdf.Transform2D(sdf.ScaleUniform2D(sdf.ScaleUniform2D(s, 4), 0.5), r2)
+			},
+			m2: func(p v2.Vec) v2.Vec { return r2inv.MulPosition(p).MulScalar(0.5) }},
 		{name: "offset +0.125 (convex primitive)", k: 1, off: 0.125,
 			f3: func(s sdf.SDF3) sdf.SDF3 { return sdf.Offset3D(s, 0.125) }, m3: func(p v3.Vec) v3.Vec { return p },
 			f2: func(s sdf.SDF2) sdf.SDF2 { return sdf.Offset2D(s, 0.125) }, m2: func(p v2.Vec) v2.Vec { return p }},
@@ -292,6 +310,59 @@ func main() {
 		}
 		atomic.AddInt64(&pts, n)
 	})
+	// unions of exact 2D shapes (the 2D union prunes operands by their boxes): outside all operands the value is
+	// the exact distance to the nearest one, whatever the arrangement (a wide operand beside, above or below a
+	// small one, far apart, nested)
+	{
+		bx := func(w, h, x, y float64) (sdf.SDF2, func(p v2.Vec) float64) {
+			b := sdf.Transform2D(sdf.Box2D(v2.Vec{X: w, Y: h}, 0), sdf.Translate2d(v2.Vec{X: x, Y: y}))
+			return b, func(p v2.Vec) float64 {
+				dx, dy := math.Abs(p.X-x)-w/2, math.Abs(p.Y-y)-h/2
+				return math.Hypot(math.Max(dx, 0), math.Max(dy, 0)) + math.Min(math.Max(dx, dy), 0)
+			}
+		}
+		type opd struct {
+			s sdf.SDF2
+			o func(p v2.Vec) float64
+		}
+		mk := func(w, h, x, y float64) opd { s, o := bx(w, h, x, y); return opd{s, o} }
+		small := mk(0.5, 0.5, 0, 0)
+		for ai, arr := range [][]opd{
+			{small, mk(8, 1, 6, 0)}, {small, mk(8, 1, -6, 0)}, {small, mk(1, 8, 0, 6)}, {small, mk(1, 8, 0, -6)},
+			{small, mk(8, 1, 6, 0.4), mk(1, 8, -0.3, -7)}, {mk(8, 1, 6, 0), small}, {mk(1, 8, 0, -6), small, mk(8, 1, -6, 2)},
+			// big operands (taller and thicker than their distance to the small one) on each side
+			{small, mk(3, 8, 3.2, 0)}, {small, mk(3, 8, -3.2, 0.3)}, {small, mk(8, 3, 0, 3.2)}, {small, mk(8, 3, -0.3, -3.2)},
+			{mk(6, 6, 4.5, 0), small}, {mk(6, 6, -4.5, 1), small, mk(6, 6, 0, 5)}, {small, mk(6, 6, 4.2, 4.2), mk(6, 6, -4.2, -4.2)},
+		} {
+			var ops []sdf.SDF2
+			for _, o := range arr {
+				ops = append(ops, o.s)
+			}
+			for _, nested := range []bool{false, true} {
+				u := sdf.Union2D(ops...)
+				if nested && len(ops) > 2 {
+					u = sdf.Union2D(sdf.Union2D(ops[0], ops[1]), ops[2])
+				} else if nested {
+					u = sdf.Union2D(sdf.Union2D(ops[0]), ops[1])
+				}
+				states++
+				for i := -48; i <= 48; i++ {
+					for j := -48; j <= 48; j++ {
+						p := v2.Vec{X: float64(i)*0.25 + 0.0137, Y: float64(j)*0.25 - 0.0071}
+						want := math.Inf(1)
+						for _, o := range arr {
+							want = math.Min(want, o.o(p))
+						}
+						pts++
+						if got := u.Evaluate(p); want > 0 && !(math.Abs(got-want) <= 1e-9*(1+math.Abs(want))) {
+							c.Violation("not-euclidean|Union2D|outside-all-operands", fmt.Sprintf("union arrangement %d (nested=%v) at %v: Evaluate %g, distance to the nearest operand %g", ai, nested, p, got, want), map[string]any{"arrangement": ai, "nested": nested, "point": p})
+							i, j = 99, 99
+						}
+					}
+				}
+			}
+		}
+	}
 	// full revolution of exact 2D primitives lying on x > 0
 	for _, p := range ps {
 		if p.s2 == nil || p.class == "Line2D" {
@@ -426,6 +497,17 @@ func main() {
 					df := math.Abs(val[a*L2+b] - val[a2*L2+b2])
 					np++
 					if df > dist*(1+1e-9)+1e-12 {
+						// the 2D union prunes operands by their boxes: with an operand that is not a distance field (a cut,
+						// an intersection ...) the value jumps where the pruning decision changes, although every value is
+						// still a lower bound of the true distance - a listed finding, recognised by the unpruned
+						// EvaluateSlow being 1-Lipschitz on the same pair
+						if us, ok := s.(*sdf.UnionSDF2); ok && !nd.OperandExact {
+							if ds := math.Abs(us.EvaluateSlow(p) - us.EvaluateSlow(q)); ds <= dist*(1+1e-9)+1e-12 {
+								c.Violation("not-1-lipschitz|UnionSDF2|box-pruning-with-an-operand-that-is-not-a-distance-field", fmt.Sprintf("%s: |f(%v) - f(%v)| = %g > distance %g (EvaluateSlow: %g)", nd.Name, p, q, df, dist, ds), map[string]any{"shape": nd.Name, "p": p, "q": q})
+								atomic.AddInt64(&pairs, np)
+								return
+							}
+						}
 						c.Violation("not-1-lipschitz|"+nd.Root+"["+paramClass(nd.Name)+"]", fmt.Sprintf("%s: |f(%v) - f(%v)| = %g > distance %g", nd.Name, p, q, df, dist), map[string]any{"shape": nd.Name, "p": p, "q": q})
 						atomic.AddInt64(&pairs, np)
 						return
